@@ -22,6 +22,7 @@ import GoaktVerif.Lemmas.C04.SegTrace5
 import GoaktVerif.Lemmas.C04.IntakeValues
 import GoaktVerif.Lemmas.C04.FairInv
 import GoaktVerif.Lemmas.C04.FairCount
+import GoaktVerif.Lemmas.C04.FairSub
 
 namespace GoaktVerif.C04
 open GoaktVerif.Model.C04 GoaktVerif.Spec.C04
@@ -611,20 +612,21 @@ site from which it will still (re)check that sender (the producer from its `Add:
 publication to its `CAS:active`; the consumer between `Store:active(false)` and its re-check).  Every atomic step
 of every thread preserves it except ONE: the nil-branch re-check (`i3`) evaluated while `pending > 0`,
 `active = false` and `length ≤ 0` (`FairInv.guardMiss`).  `FairInv.ReachNM` = reachable without such a step.
-The counting identity (`fair_counting_identity`) excludes that step on every run on which no message is consumed
-before it is counted (`FairInv.ReachNU`), which gives `fair_no_stranded_sender`.  NOT proved: that the repaired
-code never consumes an uncounted message (`ReachNU` = `Reach`; true by construction of 762e7d2 — a message is
-published after it is counted — but it needs the sub-queue's "dequeues ≤ reservations" inside the composite), and
-that an active sender is in the active list exactly once (the list structure). -/
+The counting identity (`fair_counting_identity_partial`) excludes that step on every run on which no message is
+consumed before it is counted (`FairInv.ReachNU`); `fair_never_consumes_uncounted` (below) shows that EVERY run of the
+repaired code is such a run, so `fair_counting_identity` and `fair_no_stranded_sender` hold for all schedules.  The
+theorems named `_partial` keep their hypothesis on the run (they are the lemmas the unconditional ones are made of, and
+they also hold of the code before 762e7d2).  NOT proved: that an active sender is in the active list exactly once (the
+list structure), hence not yet "every accepted message is eventually returned by Dequeue" for the composite. -/
 
-theorem fair_activation_protocol (progs : List (List Op)) (c : Cfg Fair.algo)
+theorem fair_activation_protocol_partial (progs : List (List Op)) (c : Cfg Fair.algo)
     (h : FairInv.ReachNM (initCfg Fair.algo Fair.init progs) c) :
     ∀ k, (c.sh.boxes k).pending > 0 → (c.sh.boxes k).active = true ∨ FairInv.someoneChecks c k :=
   FairInv.actInv_reach progs c h
 
 /-- no stranded sender: when all threads have finished (nobody is parked anywhere) and no `guardMiss` step
 was taken, every sender with counted messages is active -/
-theorem fair_no_stranded_sender_when_quiescent (progs : List (List Op)) (c : Cfg Fair.algo)
+theorem fair_no_stranded_sender_when_quiescent_partial (progs : List (List Op)) (c : Cfg Fair.algo)
     (h : FairInv.ReachNM (initCfg Fair.algo Fair.init progs) c) (hd : allDone c = true) :
     ∀ k, (c.sh.boxes k).pending > 0 → (c.sh.boxes k).active = true := by
   intro k hp
@@ -638,21 +640,87 @@ branch is not taken), any number of producers, one consumer `ct`:
 `length = Σ_{k<K} pending_k + #{threads between Add:length(+1) and Add:pending(+1)} − #{threads between
 Add:length(−1) and Add:pending(−1)}` for a bound `K` beyond which every `pending` is 0, and every `pending`
 is non-negative.  Before 762e7d2 the code violated the hypothesis (F9). -/
-theorem fair_counting_identity (ct : Nat) (progs : List (List Op)) (wf : FairInv.FairWF ct progs) (c : Cfg Fair.algo)
+theorem fair_counting_identity_partial (ct : Nat) (progs : List (List Op)) (wf : FairInv.FairWF ct progs) (c : Cfg Fair.algo)
     (h : FairInv.ReachNU (initCfg Fair.algo Fair.init progs) c) :
     (∃ K, FairInv.Supp c.sh K ∧ c.sh.length = FairInv.sumP K c.sh + FairInv.cnt c.threads) ∧
     (∀ k, 0 ≤ (c.sh.boxes k).pending) :=
   ⟨(FairInv.countInv_reach ct progs wf c h).ident, (FairInv.countInv_reach ct progs wf c h).nonneg⟩
 
-/-- NO STRANDED SENDER on those runs: the identity makes the one bad step of `fair_activation_protocol`
+/-- NO STRANDED SENDER on those runs: the identity makes the one bad step of `fair_activation_protocol_partial`
 impossible (`pending_k > 0` implies `length > 0` at the re-check), so in every such configuration a sender with
 counted messages is active or about to be (re)checked, and active once all threads have finished -/
-theorem fair_no_stranded_sender (ct : Nat) (progs : List (List Op)) (wf : FairInv.FairWF ct progs) (c : Cfg Fair.algo)
+theorem fair_no_stranded_sender_partial (ct : Nat) (progs : List (List Op)) (wf : FairInv.FairWF ct progs) (c : Cfg Fair.algo)
     (h : FairInv.ReachNU (initCfg Fair.algo Fair.init progs) c) :
     (∀ k, (c.sh.boxes k).pending > 0 → (c.sh.boxes k).active = true ∨ FairInv.someoneChecks c k) ∧
     (allDone c = true → ∀ k, (c.sh.boxes k).pending > 0 → (c.sh.boxes k).active = true) := by
   have hnm := FairInv.reachNU_reachNM ct progs wf c h
-  exact ⟨fair_activation_protocol progs c hnm, fun hd => fair_no_stranded_sender_when_quiescent progs c hnm hd⟩
+  exact ⟨fair_activation_protocol_partial progs c hnm, fun hd => fair_no_stranded_sender_when_quiescent_partial progs c hnm hd⟩
+
+/-! ### the repaired fair mailbox never consumes a message before it is counted — ALL schedules
+
+`FairInv.fair_og` (Owicki–Gries over ghost fields of the model: per sender the reservation order `resvL`, the counting
+order `cntL`, the numbers of sub-dequeues `deqd`, of decrements `decd`, and `held` = taken and not yet subtracted): the
+sub-queue's head is the `deqd`-th node of `0 :: resvL`, links point to successors, no repetition, everything reserved
+has been counted (`Enqueue` counts before it publishes), `pending = |cntL| − decd`, `deqd = decd + held`.  So
+`deqd ≤ |resvL| ≤ |cntL|`, and with `held ≥ 1` at the consumer's decrement `pending ≥ 1` there.  Hypotheses: the usage
+the property quantifies over — distinct non-zero message ids (`UB.UBWellFormed`), only thread `ct` consumes
+(`FairInv.FairWF`); both follow from `WellFormed progs = true` (`fair_wellFormed_hyp`). -/
+
+/-- every reachable configuration is reached without consuming an uncounted message: at the consumer's
+`Add:pending(−1)` of sender `k` `pending_k ≥ 1`, and no thread ever stands in finalizeSender's `remaining < 0` branch -/
+theorem fair_never_consumes_uncounted (ct : Nat) (progs : List (List Op)) (wf : UB.UBWellFormed ct progs)
+    (wf2 : FairInv.FairWF ct progs) (c : Cfg Fair.algo) (h : Reach Fair.algo (initCfg Fair.algo Fair.init progs) c) :
+    FairInv.ReachNU (initCfg Fair.algo Fair.init progs) c ∧
+    (∀ (i : Nat) (t : Thread Fair.PC) (k n : Nat), c.threads[i]? = some t →
+      (t.pc = some (.j2 k n) → 1 ≤ (c.sh.boxes k).pending) ∧ t.pc ≠ some (.j3 k n)) := by
+  refine ⟨FairInv.reach_reachNU ct progs wf wf2 c h, fun i t k n ht => ⟨fun hpc => ?_, fun hpc => ?_⟩⟩
+  · have := FairInv.reach_noNeg ct progs wf wf2 c h i t _ ht hpc
+    simpa [FairInv.noNeg] using this
+  · have := FairInv.reach_noNeg ct progs wf wf2 c h i t _ ht hpc
+    simp [FairInv.noNeg] at this
+
+/-- THE COUNTING IDENTITY for every schedule (no hypothesis on the run) -/
+theorem fair_counting_identity (ct : Nat) (progs : List (List Op)) (wf : UB.UBWellFormed ct progs)
+    (wf2 : FairInv.FairWF ct progs) (c : Cfg Fair.algo) (h : Reach Fair.algo (initCfg Fair.algo Fair.init progs) c) :
+    (∃ K, FairInv.Supp c.sh K ∧ c.sh.length = FairInv.sumP K c.sh + FairInv.cnt c.threads) ∧
+    (∀ k, 0 ≤ (c.sh.boxes k).pending) :=
+  fair_counting_identity_partial ct progs wf2 c (FairInv.reach_reachNU ct progs wf wf2 c h)
+
+/-- NO STRANDED SENDER for every schedule: in every reachable configuration a sender with counted messages is
+active or some thread is parked where it will still (re)check it; when all threads have finished it is active -/
+theorem fair_no_stranded_sender (ct : Nat) (progs : List (List Op)) (wf : UB.UBWellFormed ct progs)
+    (wf2 : FairInv.FairWF ct progs) (c : Cfg Fair.algo) (h : Reach Fair.algo (initCfg Fair.algo Fair.init progs) c) :
+    (∀ k, (c.sh.boxes k).pending > 0 → (c.sh.boxes k).active = true ∨ FairInv.someoneChecks c k) ∧
+    (allDone c = true → ∀ k, (c.sh.boxes k).pending > 0 → (c.sh.boxes k).active = true) :=
+  fair_no_stranded_sender_partial ct progs wf2 c (FairInv.reach_reachNU ct progs wf wf2 c h)
+
+/-- per sender, for every schedule: the sub-queue has dequeued no more than it reserved, reserved no more than was
+counted, and the counter is exactly counted minus subtracted -/
+theorem fair_subqueue_accounting (ct : Nat) (progs : List (List Op)) (wf : UB.UBWellFormed ct progs)
+    (wf2 : FairInv.FairWF ct progs) (c : Cfg Fair.algo) (h : Reach Fair.algo (initCfg Fair.algo Fair.init progs) c) (k : Nat) :
+    (c.sh.boxes k).deqd ≤ (c.sh.boxes k).resvL.length ∧ (c.sh.boxes k).resvL.length ≤ (c.sh.boxes k).cntL.length ∧
+    (c.sh.boxes k).pending = ((c.sh.boxes k).cntL.length : Int) - ((c.sh.boxes k).decd : Int) ∧
+    (c.sh.boxes k).deqd = (c.sh.boxes k).decd + (c.sh.boxes k).held ∧ (0 :: (c.sh.boxes k).resvL).Nodup := by
+  have hI := (FairInv.fair_og ct progs wf wf2 c h).1 k
+  exact ⟨hI.deqd_le, hI.resv_le, hI.pend, hI.cons, hI.nodup⟩
+
+/-- the executable `WellFormed` of `C04_full` implies both usage hypotheses (consumer = last thread) -/
+theorem fair_wellFormed_hyp (progs : List (List Op)) (h : WellFormed progs = true) :
+    UB.UBWellFormed (progs.length - 1) progs ∧ FairInv.FairWF (progs.length - 1) progs := by
+  refine ⟨UB.ubWellFormed_of_wellFormed progs h, ?_⟩
+  simp only [WellFormed, Bool.and_eq_true, Bool.not_eq_true', List.all_eq_true] at h
+  obtain ⟨_, hcons⟩ := h
+  intro i p hp hi op hop
+  have hlt : i < progs.length := by
+    rcases Nat.lt_or_ge i progs.length with h' | h'
+    · exact h'
+    · rw [List.getElem?_eq_none h'] at hp; cases hp
+  have hmem : p ∈ progs.dropLast := by
+    have : progs.dropLast[i]? = some p := by
+      rw [List.getElem?_dropLast, if_pos (by omega)]; exact hp
+    exact List.mem_of_getElem? this
+  have := hcons p hmem op hop
+  cases op <;> simp [consumerOnly] at this <;> rfl
 
 /-- the hypothesis is not vacuous: the F3 schedule (three producers of one sender, the consumer running into the
 nil-branch re-check) and the F9 schedule (late activation; uncounted consumption before 762e7d2) consume nothing
@@ -766,6 +834,15 @@ def Refines : MB → Prop
         (∃ K, FairInv.Supp c.sh K ∧ c.sh.length = FairInv.sumP K c.sh + FairInv.cnt c.threads) ∧
         (∀ k, 0 ≤ (c.sh.boxes k).pending) ∧
         (∀ k, (c.sh.boxes k).pending > 0 → (c.sh.boxes k).active = true ∨ FairInv.someoneChecks c k) ∧
+        (allDone c = true → ∀ k, (c.sh.boxes k).pending > 0 → (c.sh.boxes k).active = true)) ∧
+    -- (5) UNCONDITIONAL, every schedule (distinct non-zero ids, one consumer): no message is consumed before it is
+    -- counted, hence the counting identity and no stranded sender in every reachable configuration
+    (∀ (ct : Nat) (progs : List (List Op)), UB.UBWellFormed ct progs → FairInv.FairWF ct progs → ∀ (c : Cfg Fair.algo),
+      Reach Fair.algo (initCfg Fair.algo Fair.init progs) c →
+        FairInv.ReachNU (initCfg Fair.algo Fair.init progs) c ∧
+        (∃ K, FairInv.Supp c.sh K ∧ c.sh.length = FairInv.sumP K c.sh + FairInv.cnt c.threads) ∧
+        (∀ k, 0 ≤ (c.sh.boxes k).pending) ∧
+        (∀ k, (c.sh.boxes k).pending > 0 → (c.sh.boxes k).active = true ∨ FairInv.someoneChecks c k) ∧
         (allDone c = true → ∀ k, (c.sh.boxes k).pending > 0 → (c.sh.boxes k).active = true))
 
 
@@ -816,10 +893,15 @@ theorem C04_all_refine : ∀ m : MB, Refines m := by
     exact ⟨h.1, stable_priority_then_arrival { cap := some cap, stable := true, lt } rfl hsw progs c hr x rest hp⟩
   | fair =>
     refine ⟨fun ct tid c cells h => unbounded_forward_simulation ct tid c cells h,
-      fair_subqueue_frame, fair_activation_protocol, ?_⟩
-    intro ct progs wf c h
-    have h1 := fair_counting_identity ct progs wf c h
-    have h2 := fair_no_stranded_sender ct progs wf c h
-    exact ⟨h1.1, h1.2, h2.1, h2.2⟩
+      fair_subqueue_frame, fair_activation_protocol_partial, ?_, ?_⟩
+    · intro ct progs wf c h
+      have h1 := fair_counting_identity_partial ct progs wf c h
+      have h2 := fair_no_stranded_sender_partial ct progs wf c h
+      exact ⟨h1.1, h1.2, h2.1, h2.2⟩
+    · intro ct progs wf wf2 c h
+      have h0 := fair_never_consumes_uncounted ct progs wf wf2 c h
+      have h1 := fair_counting_identity ct progs wf wf2 c h
+      have h2 := fair_no_stranded_sender ct progs wf wf2 c h
+      exact ⟨h0.1, h1.1, h1.2, h2.1, h2.2⟩
 
 end GoaktVerif.C04
